@@ -82,6 +82,14 @@ fn fault_check(stage: u16, a: u64) -> bool {
     fire
 }
 
+/// Fault check for code that has its own yield point (Clone of the item type).
+pub fn maybe_fault(stage: u16, a: u64, b: u64) {
+    if sched::mode() != sched::MODE_REF && fault_check(stage, a) {
+        sched::note(Kind::Panic, stage, a, b);
+        std::panic::panic_any(PANIC_INJECTED);
+    }
+}
+
 /// Entry of a user closure: yield point, then fault check.
 #[inline(never)]
 pub fn enter(stage: u16, a: u64, b: u64) {
